@@ -209,6 +209,18 @@ def run_impl(case):
     trace = []
     rows = rows_of(a, cfg)
     hist_scale = 0.0
+    bufs = {}
+
+    def reuse(x):
+        """callers often keep ONE preallocated measures array and refill it in place between calls: same object, new contents"""
+        if not case.get("reuse") or not isinstance(x, np.ndarray):
+            return x
+        key = (x.shape, x.dtype.str)
+        if key in bufs:
+            bufs[key][...] = x
+            return bufs[key]
+        bufs[key] = x
+        return x
     for op in case["ops"]:
         ent = {"op": op, "pre": rows}
         pre_meas = [r[1][3] for r in rows]
@@ -228,6 +240,7 @@ def run_impl(case):
             try:
                 if kind == "add":
                     sol, obj, meas, fields = batch_arrays(cfg, cands, noobj, op[3] if len(op) > 3 else "list")
+                    meas = reuse(meas)
                     info = a.add(sol, obj, meas, **fields)
                 else:
                     c = cands[0]
@@ -255,7 +268,7 @@ def run_impl(case):
             pts = [cast_point(cfg, q[1]) for q in qs]
             ent["cands"] = [[0, F(cast(cfg, q[0])), [F(v) for v in p], exact_dists(cfg, pre_meas, p), 0] for q, p in zip(qs, pts)]
             try:
-                arr = np.array(pts, dtype=DT[cfg["dtype"]]).reshape(len(pts), cfg["dim"])
+                arr = reuse(np.array(pts, dtype=DT[cfg["dtype"]]).reshape(len(pts), cfg["dim"]))
                 if with_obj:
                     nv, lc = a.compute_novelty(arr, local_competition=np.array([q[0] for q in qs], dtype=DT[cfg["dtype"]]))
                     ent["out"] = [0, [float(x) for x in nv], [int(x) for x in lc]]
@@ -770,7 +783,7 @@ def gen_case(rng, tier, force=None):
             if o[0] == "clear" and rng.random() < 0.7:
                 out.append([rng.choice(["lower", "upper"])])
         ops = out
-    return {"cfg": cfg, "ops": ops}
+    return {"cfg": cfg, "ops": ops, "reuse": rng.random() < 0.4}
 
 
 def gen_malformed(rng):
